@@ -8,6 +8,7 @@ package main
 //	vh seq-exec  <requests.json> <out.ndjson>                   re-executes recorded calls (replay)
 
 import (
+	"bytes"
 	"fmt"
 	"iter"
 	"math/rand"
@@ -444,6 +445,36 @@ func seqDrive(args []string) error {
 			}
 			do(withDst("revcomp", s, r.Intn(len(dstVars))))
 			do(seqReq{Op: "revcompstr", Src: s})
+		}
+		// runs of one letter in mixed case, shorter and longer than a machine word or two (masked repeats, runs of unknown bases)
+		for _, c := range []string{"nN", "aA", "tT", "cC", "gG"} {
+			for _, ln := range []int{7, 8, 9, 15, 16, 17, 31, 32, 33, 64, 100} {
+				run := make([]int, ln)
+				for i := range run {
+					run[i] = int(c[r.Intn(2)])
+				}
+				s := append(append(randOver(r, []byte(lettersRC), r.Intn(5)), run...), randOver(r, []byte(lettersRC), r.Intn(5))...)
+				do(withDst("revcomp", s, r.Intn(len(dstVars))))
+				do(seqReq{Op: "revcompstr", Src: s})
+				do(seqReq{Op: "canon", Seq: s, K: 1 + r.Intn(ln)})
+			}
+		}
+		// hairpins: a stem, a short loop, the reverse complement of the stem (the two strands of such a k-mer agree in their first
+		// and last |stem| letters): k = the whole hairpin and a few around it
+		for stem := 1; stem <= 20; stem++ {
+			for _, loop := range []int{0, 1, 3, 4} {
+				st := randOver(r, []byte("ACGT"), stem)
+				hp := append(append([]int{}, st...), randOver(r, []byte("ACGT"), loop)...)
+				for i := stem - 1; i >= 0; i-- {
+					hp = append(hp, int("TGCA"[bytes.IndexByte([]byte("ACGT"), byte(st[i]))]))
+				}
+				s := append(append(randOver(r, []byte("ACGT"), 2), hp...), randOver(r, []byte("ACGT"), 2)...)
+				for _, k := range []int{len(hp), len(hp) + 1, len(hp) - 1} {
+					if k >= 1 {
+						do(seqReq{Op: "canon", Seq: s, K: k})
+					}
+				}
+			}
 		}
 		// dst and src cut from one allocation (disjoint): every string up to length 3, three dst shapes
 		for _, s := range allStrings([]int{'a', 'C', 'g', 'T', 'n'}, 3) {
